@@ -734,6 +734,29 @@ class IntegratePlanar:
         Computes the integral for a bezier curve of given control points
         """
         assert isinstance(curve, PlanarCurve)
+        if nnodes is None and curve.degree > 1:
+            # The chord winds around the center like the curve does only if
+            # the center is outside the box of the control points, which
+            # contains both: halve the pieces until that is the case
+            total = 0
+            pieces = [curve]
+            for _ in range(64):
+                if not pieces:
+                    break
+                remain = []
+                for piece in pieces:
+                    if center in piece.box():
+                        remain += piece.split([Fraction(1, 2)])
+                    else:
+                        total += IntegratePlanar.winding_number_linear(
+                            piece.ctrlpoints[0], piece.ctrlpoints[-1], center
+                        )
+                pieces = remain
+            for piece in pieces:
+                total += IntegratePlanar.winding_number_linear(
+                    piece.ctrlpoints[0], piece.ctrlpoints[-1], center
+                )
+            return total
         nnodes = curve.npts if nnodes is None else nnodes
         nodes = Math.closed_linspace(nnodes)
         total = 0
